@@ -458,7 +458,9 @@ class HeaderPacketReceiver(Elaboratable):
             # and then move to the state in which we'll send them.
             with m.State("DISPATCH_COMMAND"):
 
-                with m.If(self.enable):
+                # (We won't dispatch during a USB reset: the pending work we'd base our choice on
+                #  is exactly what's being discarded below.)
+                with m.If(self.enable & ~self.usb_reset):
                     # NOTE: the order below is important; changing it can easily break things:
                     # - ACKS must come before credits, as we must send an LGOOD before we send our initial credits.
                     # - LBAD must come after ACKs and credit management, as all scheduled ACKs need to be
